@@ -81,6 +81,7 @@ def walks(N, V, L, has):
 def run_case(case, drv):
     res = Result(key=core.case_key(case))
     o, outcome = FU.build_form(case)
+    FU.check_fresh_twin(o, case["form"], res)
     FU.check_construction(o, res)
     if outcome not in (None, "ok"):
         res.nontrivial = False
